@@ -36,7 +36,7 @@ def parseParams (r : List String) : Option Params := do
   let ratio ← intArg? r "mintratio"
   let e ← bool01? (arg r "erc20")
   let b ← bool01? (arg r "beacon")
-  some { taxRate := ⟨tax⟩, feeDenom := arg r "feedenom", feeAmt := amt, mintRatio := ⟨ratio⟩, erc20 := e, beacon := b }
+  some { taxRate := ⟨tax⟩, feeDenom := dash (arg r "feedenom"), feeAmt := amt, mintRatio := ⟨ratio⟩, erc20 := e, beacon := b }
 
 /-- parse an op line; `none` = malformed (never defaulted) -/
 def parseOp (t : List String) : Option Op :=
@@ -98,7 +98,7 @@ def showState (s : State) : String :=
     ((s.bank.supply.filter fun (_, v) => v != 0).map fun (d, v) => s!"{d}:{v}")))
   let evm := sortStrings ((s.evm.filter fun (_, v) => v != 0).map fun ((c, h), v) => s!"{kName c}/{h}:{v}")
   s!"toks={joinWith "," toks} mu={joinWith "," mu} own={joinWith "," own} ctr={joinWith "," ctr} " ++
-  s!"burned={joinWith "," burned} params={p.taxRate.raw}:{p.feeDenom}:{p.feeAmt}:{p.mintRatio.raw}:{if p.erc20 then 1 else 0}:{if p.beacon then 1 else 0} " ++
+  s!"burned={joinWith "," burned} params={p.taxRate.raw}:{undash p.feeDenom}:{p.feeAmt}:{p.mintRatio.raw}:{if p.erc20 then 1 else 0}:{if p.beacon then 1 else 0} " ++
   s!"bal={joinWith "," bal} sup={joinWith "," sup} nonce={s.nonce} evm={joinWith "," evm} fault={s.fault}"
 
 def parseBals (e : String) : Option (AMap (Addr × Denom) Nat) := do
@@ -173,7 +173,7 @@ def parseState (env : Env) (t : List String) : Option State := do
     let r ← mr.toInt?
     let eb ← bool01? e
     let bb ← bool01? b
-    s := { s with params := { taxRate := ⟨tx⟩, feeDenom := fd, feeAmt := a, mintRatio := ⟨r⟩, erc20 := eb, beacon := bb } }
+    s := { s with params := { taxRate := ⟨tx⟩, feeDenom := dash fd, feeAmt := a, mintRatio := ⟨r⟩, erc20 := eb, beacon := bb } }
   | _ => none
   let bal ← parseBals (arg t "bal")
   let mut sup : AMap Denom Nat := []
